@@ -25,8 +25,12 @@ class V:
         self.kind = kind
         self.detail = detail
 
+    def text(self) -> str:
+        d = self.detail() if callable(self.detail) else self.detail
+        return f"{self.kind}: {d}"
+
     def __repr__(self):
-        return f"{self.kind}: {self.detail}"
+        return self.text()
 
 
 _TAGS = set()
